@@ -1,4 +1,5 @@
-import sys; sys.path.insert(0,'/tmp/wp_mpsc2/lean_m/MayVerif/Proof/Queue/Mpsc/gen')
+import os
+import sys; sys.path.insert(0,os.path.dirname(os.path.abspath(__file__)))
 from ctors import *
 consumer = ['nAlloc0','nAlloc1','nLink','nRet','oBlk','oIdx','oTry','oTail','oSpin','oRead','oStore','rFree','rNext','rHead','bIdx','bBlk','bFast','bFastRd','bStore','bTail','bCopy','bCopyRd','kIdx','kTail','kBlk','kSpin','kRead','lIdx','lTail','dHead','dTail','dNext','dFree1','dFree2','dFree3']
 T=lambda l: {c:'true' for c in l}
@@ -37,4 +38,4 @@ namespace MayVerif.Mpsc
 open MayVerif.MpscA (upd Ret)
 
 '''
-open('/tmp/wp_mpsc2/lean_m/MayVerif/Proof/Queue/Mpsc/Preds.lean','w').write(hdr+'\n'.join(defs)+'\nend MayVerif.Mpsc\n')
+open(os.path.join(os.path.dirname(os.path.dirname(os.path.abspath(__file__))), 'Preds.lean'),'w').write(hdr+'\n'.join(defs)+'\nend MayVerif.Mpsc\n')
